@@ -19,6 +19,7 @@ mod reader;
 mod session;
 mod knowledge;
 mod repl;
+mod interleave;
 mod timer;
 mod gentrace;
 mod genunify;
@@ -53,6 +54,7 @@ pub fn props_of(case: &Value) -> Vec<&'static str> {
         "session" => session::props_of(case),
         "knowledge" => knowledge::props_of(case),
         "repl" => repl::props_of(case),
+        "interleave" => interleave::props_of(case),
         "timer" => timer::props_of(case),
         t if t.starts_with("syn-") => syntax::props_of(case),
         _ => vec![],
@@ -69,6 +71,7 @@ pub fn run_case(case: &Value) -> Vec<Obs> {
         "session" => session::replay(case),
         "knowledge" => knowledge::replay(case),
         "repl" => repl::replay(case),
+        "interleave" => interleave::replay(case),
         "timer" => timer::replay(case),
         t if t.starts_with("syn-") => syntax::replay(case),
         "mklist" => lists::replay_mklist(case),
